@@ -184,6 +184,24 @@ Example C12_example_single_block :
         (gf_mul_bytes (0 :: 1 :: repeat 0 14)%N (hash_key (sm4_encrypt_block A1_key))) <> repeat 0%N 16.
 Proof. vm_compute. repeat split; try reflexivity. intros H. discriminate H. Qed.
 
+(* ---- 8. histories: nothing is carried from one call to the next ---------------------------------------------------- *)
+(* any sequence of Sm4GCM / GCMEncrypt / GCMDecrypt / GetH calls (the caller may reuse and overwrite its key, IV,
+   A and P buffers between calls): every result is the specification's value on the VALUES the arguments hold
+   when that call is made - in particular it does not depend on the keys, IVs or data of earlier calls *)
+Theorem C12_stateless : forall E (calls : list gcm_call), gcm_cipher E ->
+  Forall (fun c => length (c_key c) = 16 /\ bytes_ok (c_iv c) = true /\ bytes_ok (c_in c) = true /\ bytes_ok (c_a c) = true) calls ->
+  gcm_run E tt calls =
+    Ok (map (fun c =>
+              let CIPH := E (c_key c) in
+              match c_fn c with
+              | FnSm4GCM true | FnGCMEncrypt => let '(x, t) := gcm_ae CIPH (c_iv c) (c_in c) (c_a c) in RPair x t
+              | FnSm4GCM false | FnGCMDecrypt =>
+                RPair (gctr CIPH (inc32 (J0 CIPH (c_iv c))) (c_in c)) (gcm_tag CIPH (c_iv c) (c_a c) (c_in c))
+              | FnGetH => RBlock (hash_key CIPH)
+              end) calls).
+Proof. intros E calls [H1 H2] HF. exact (gcm_run_spec E H1 H2 calls HF tt). Qed.
+Print Assumptions C12_stateless.
+
 (* ---- non-vacuity: SM4 instances, evaluated ------------------------------------------------------------------------------ *)
 Example C12_example_rfc8998 :
   Sm4GCM sm4_encrypt_block A1_key rfc8998_iv rfc8998_pt rfc8998_aad true = Ok (rfc8998_ct, rfc8998_tag) /\
@@ -204,3 +222,13 @@ Example C12_example_short_iv_and_flip :
   omap snd (Sm4GCM E A1_key [255]%N [7]%N [1; 2]%N false) <> omap snd (Sm4GCM E A1_key [255]%N [7]%N [1; 3]%N false) /\
   Sm4GCM E [1; 2; 3]%N [255]%N [] [] true = Err 1.
 Proof. vm_compute. repeat split; try reflexivity. intros H. discriminate H. Qed.
+
+(* a key buffer rewritten between two calls: the second result is that of the second key *)
+Example C12_example_history :
+  let E := sm4_encrypt_block in
+  let k2 := (0 :: tl A1_key)%N in
+  gcm_run E tt [mkCall (FnSm4GCM true) A1_key rfc8998_iv rfc8998_pt rfc8998_aad;
+                mkCall FnGetH k2 [] [] [];
+                mkCall FnGCMDecrypt A1_key rfc8998_iv rfc8998_ct rfc8998_aad]
+  = Ok [RPair rfc8998_ct rfc8998_tag; RBlock (E k2 (repeat 0%N 16)); RPair rfc8998_pt rfc8998_tag].
+Proof. vm_compute. reflexivity. Qed.
